@@ -27,7 +27,11 @@
         which the lifetime timers fire;
       * Nacks x handler tables (nack_scenario): Nacks in every reason form against Interest handlers attached at,
         above, below and beside the nacked name, with and without somebody waiting for the nacked Interest: a Nack
-        never invokes a handler; judged by construction (no model, no classification by the implementation).
+        never invokes a handler; judged by construction (no model, no classification by the implementation);
+      * awaited Data x validators that judge x TLV-level edits (judged_scenario): every single element edit of honest
+        Data (and of its MetaInfo / SignatureInfo), re-framed, while Interests wait for it whose validators give every
+        verdict (a real DigestSha256 check, each constant, delayed, timing out): each addressed Interest ends at once
+        with the Data or with ValidationFailure as its verdict says; no background task ends with an unhandled error.
 """
 import asyncio
 import copy
@@ -74,6 +78,20 @@ RULE = ('(A) packet lists (types/lengths over all four var-number forms incl. no
         'the same name reaches exactly the longest attached prefix once and whoever still waits gets its Data.  Without a '
         'model executable (translator abort) the Nacks the harness built itself are Nacks by construction for the other '
         'oracles too (not what the implementation under test makes of them).  '
+        'Awaited Data x validators that judge x TLV-level edits: Data as an honest producer emits it (DigestSha256-signed / '
+        'unsigned x MetaInfo absent / empty / with three fields x Content absent / empty / 7 / 300 bytes; quick tier: seven of '
+        'these bases covering every value) with EVERY single edit of its element sequence and of the children of MetaInfo and '
+        'SignatureInfo (element deleted, duplicated, emptied, value cut / extended by a byte, a byte changed, neighbours '
+        'swapped, unknown ignorable / critical element inserted at every position; enclosing Lengths re-framed), bare or in an '
+        'LpPacket, handed over awaited / as a task, while Interests of depth 1-3 wait for it (alone, two under one name with '
+        'opposite verdicts, with a CanBePrefix parent, beside another name) whose validators really judge: a DigestSha256 check '
+        '(verdict follows from the edit), every ValidResult constant (v1: True / False / None), the same after a delay, a '
+        'validator that runs into TimeoutError.  Whether the bytes are a Data and its name come from the model\'s classification; '
+        'Content and signature validity from the harness\'s own TLV walker.  Demanded: reception returns normally; every Interest '
+        'the Data addresses ends AT ONCE (after the delay of its validator) with that Data (name, Content or None) when its '
+        'verdict is PASS / ALLOW_BYPASS (v1: truthy) and with ValidationFailure carrying that name, Content and verdict '
+        'otherwise; nobody else is touched and still gets its own Data afterwards with the outcome its validator dictates; no '
+        'background task ends with an unhandled error (loop exception handler, incl. never-retrieved task exceptions after gc).  '
         'non-trivial = stream/packet of >= 4 bytes; distinct by (part, input) hash')
 ASSUMPTIONS = [
     'asyncio.StreamReader.readexactly consumes nothing until n bytes are buffered; tasks start in creation order '
@@ -1550,6 +1568,372 @@ def nack_handler_family(ctx, fronts, loop):
                             gc.freeze()
 
 
+# ---- awaited Data x validators that judge x TLV-level edits -------------------------------------------------------
+# The other reception families let every pending Interest accept whatever arrives (a validator that always passes), so
+# everything the application does AFTER the verdict -- in a task of its own in appv2, in the caller's coroutine in v1 --
+# was only ever exercised on its "accepted" branch and on Data as the library's own encoder emits it.  Here the awaited
+# Data is edited at the TLV level (every element of the packet and of MetaInfo / SignatureInfo deleted, duplicated,
+# emptied, cut, extended, a byte changed, neighbours swapped, unknown elements inserted; all enclosing Lengths re-framed)
+# and the Interests waiting for it carry validators that really judge: a DigestSha256 check (its verdict follows from the
+# edit), every constant verdict, verdicts given after a delay, a validator that runs into its timeout.
+JD_NAMES = ('/jd', '/jd/a', '/jd/a/b')
+JD_VALIDATORS = {2: ('digest', 'PASS', 'ALLOW_BYPASS', 'FAIL', 'SILENCE', 'TIMEOUT', 'slow-digest', 'slow-FAIL', 'raise-timeout'),
+                 1: ('digest', 'True', 'False', 'None', 'slow-digest', 'slow-False')}
+JD_TABLES = ('W', 'WO', 'OW', 'WU', 'PW', 'WP')     # W waits for N; O waits for N with the opposite constant verdict;
+#                                                       U another name; P parent of N with CanBePrefix
+JD_SLOW = 0.05          # s, the delayed verdicts
+EL_NAMES = {7: 'Name', 0x14: 'MetaInfo', 0x15: 'Content', 0x16: 'SignatureInfo', 0x17: 'SignatureValue'}
+
+
+def jd_bases():
+    """(label, name -> wire): Data packets as an honest producer emits them; every element present / absent / empty"""
+    from ndn.encoding import make_data, MetaInfo
+    from ndn.security import DigestSha256Signer
+    metas = {'nometa': lambda: None, 'meta0': MetaInfo,
+             'meta3': lambda: MetaInfo(content_type=0, freshness_period=1000, final_block_id=b'\x08\x01z')}
+    contents = {'nocontent': None, 'content0': b'', 'content7': b'content', 'content300': bytes(range(256)) + bytes(44)}
+    out = []
+    for sk in ('digest', 'unsigned'):
+        for mk, mf in metas.items():
+            for ck, cv in contents.items():
+                def mk_wire(nm, mf=mf, cv=cv, sk=sk):
+                    return bytes(make_data(list(nm), mf(), cv, signer=DigestSha256Signer() if sk == 'digest' else None))
+                out.append((f'{sk}.{mk}.{ck}', mk_wire))
+    return out
+
+
+# the bases of the quick tier: every value of every dimension, absent Content / MetaInfo with and without a signature
+JD_QUICK_BASES = ('digest.meta0.content7', 'digest.nometa.nocontent', 'digest.meta3.content0', 'unsigned.meta0.content7',
+                  'unsigned.meta3.nocontent', 'digest.meta0.content300', 'digest.meta3.nocontent')
+
+
+def jd_tree(value):
+    return [[t, v] for t, v in TG.tlv_walk(value)]
+
+
+def jd_ser(tree):
+    return b''.join(G.tlv(t, v) for t, v in tree)
+
+
+def jd_edits(wire):
+    """every single TLV-level edit of a Data wire: (op, path, arg); path = indices (top level, or child of a nested element)"""
+    _, a = TG.read_num(wire, 0)
+    _, b = TG.read_num(wire, a)
+    top = jd_tree(wire[a + b:])
+    levels = [((), top)]
+    for i, (t, v) in enumerate(top):
+        if t in (0x14, 0x16):
+            sub = TG.tlv_walk(v)
+            if sub is not None:
+                levels.append(((i,), [[t2, v2] for t2, v2 in sub]))
+    out = [('none', (), None)]
+    for path, els in levels:
+        for i, (t, v) in enumerate(els):
+            out += [('del', path + (i,), None), ('dup', path + (i,), None), ('empty', path + (i,), None),
+                    ('ext', path + (i,), None)]
+            if v:
+                out += [('cut', path + (i,), None), ('flip', path + (i,), None)]
+            if i + 1 < len(els):
+                out.append(('swap', path + (i,), None))
+        for i in range(len(els) + 1):
+            out.append(('ins', path + (i,), 0xF0))        # unknown, may be ignored
+            if not path:
+                out.append(('ins', path + (i,), 0xF1))    # unknown, critical
+    return out
+
+
+def jd_apply(wire, edit):
+    """the edited wire (enclosing Lengths re-framed) and a readable label of the edit"""
+    op, path, arg = edit
+    t0, a = TG.read_num(wire, 0)
+    _, b = TG.read_num(wire, a)
+    top = jd_tree(wire[a + b:])
+    if op == 'none':
+        return wire, 'none'
+    if len(path) == 2:
+        els = jd_tree(top[path[0]][1])
+        where = EL_NAMES.get(top[path[0]][0], '?') + '/'
+    else:
+        els = top
+        where = ''
+    i = path[-1]
+    label = f'{op}:{where}{EL_NAMES.get(els[i][0], hex(els[i][0])) if i < len(els) else "end"}'
+    if op == 'del':
+        del els[i]
+    elif op == 'dup':
+        els.insert(i, list(els[i]))
+    elif op == 'empty':
+        els[i][1] = b''
+    elif op == 'ext':
+        els[i][1] = els[i][1] + b'\x00'
+    elif op == 'cut':
+        els[i][1] = els[i][1][:-1]
+    elif op == 'flip':
+        els[i][1] = els[i][1][:-1] + bytes([els[i][1][-1] ^ 1])
+    elif op == 'swap':
+        els[i], els[i + 1] = els[i + 1], els[i]
+    elif op == 'ins':
+        els.insert(i, [arg, b'\x01\x02'])
+        label += f':{arg:#x}'
+    if len(path) == 2:
+        top[path[0]][1] = jd_ser(els)
+    return G.tlv(t0, jd_ser(top)), label
+
+
+def ref_data(d):
+    """Independent strict reading (harness TLV walker, no library code) of a bare Data wire: {'content': value of the
+    Content element or None, 'digest_ok': carries a DigestSha256 signature that matches the bytes it covers}; None when
+    d is not one TLV of Type 6 whose Value is a sequence of TLVs"""
+    import hashlib
+    try:
+        t, a = TG.read_num(d, 0)
+        ln, b = TG.read_num(d, a)
+        if t != 6 or a + b + ln != len(d):
+            return None
+        off, els = a + b, []
+        while off < len(d):
+            t1, a1 = TG.read_num(d, off)
+            l1, b1 = TG.read_num(d, off + a1)
+            if off + a1 + b1 + l1 > len(d):
+                return None
+            els.append((t1, off, off + a1 + b1, off + a1 + b1 + l1))
+            off += a1 + b1 + l1
+    except Exception:   # noqa
+        return None
+    content = [d[s:e] for t1, _, s, e in els if t1 == 0x15]
+    info = [d[s:e] for t1, _, s, e in els if t1 == 0x16]
+    sval = [(o, d[s:e]) for t1, o, s, e in els if t1 == 0x17]
+    ok = False
+    if len(info) == 1 and len(sval) == 1:
+        styp = [v for t2, v in (TG.tlv_walk(info[0]) or []) if t2 == 0x1b]
+        if len(styp) == 1 and len(styp[0]) >= 1 and int.from_bytes(styp[0], 'big') == 0:
+            ok = hashlib.sha256(d[a + b:sval[0][0]]).digest() == sval[0][1]
+    return {'content': content[0] if content else None, 'digest_ok': ok}
+
+
+def judged_scenario(ctx, front, loop, M, sp):
+    """sp: {'name', 'base', 'edit': [op, path, arg], 'validator', 'table', 'lp', 'mode'}"""
+    from ndn.encoding import make_data, MetaInfo, Name
+    from ndn.security import DigestSha256Signer
+    from ndn.types import ValidationFailure
+    ver = front.ver
+    site = f'appv{ver}._receive'
+    app = front.new_app()
+    VR = getattr(front.mod, 'ValidResult', None)
+    nN = [bytes(c) for c in Name.from_str(sp['name'])]
+    nU = [bytes(c) for c in Name.from_str('/jd-unrelated/u')]
+    nP = nN[:-1]
+    base = dict(jd_bases())[sp['base']](nN)
+    edit = (sp['edit'][0], tuple(sp['edit'][1]), sp['edit'][2])
+    try:
+        data, label = jd_apply(base, edit)
+    except (IndexError, TypeError):
+        return          # a stored edit that does not apply to this base (replay of a foreign case)
+    w = G.tlv(0x64, G.tlv(0x62, b'\x0a\x0b') + G.tlv(0x50, data)) if sp['lp'] else data
+    typ = 0x64 if sp['lp'] else 6
+    case = {'front': ver, 'judged': dict(sp, edit=[edit[0], list(edit[1]), edit[2]]), 'edit': label, 'typ': typ, 'wire': w}
+    cur = {'data': data}        # the bare Data the application is currently processing (what the digest check judges)
+    calls = []
+    loop.errors.clear()
+
+    def verdict_of(kind):
+        """(verdict the validator gives, does the Interest then end with the Data?)"""
+        k = kind[5:] if kind.startswith('slow-') else kind
+        if k == 'digest':
+            r = ref_data(cur['data'])
+            ok = bool(r and r['digest_ok'])
+            return ((VR.PASS if ok else VR.FAIL) if ver == 2 else ok), ok
+        if k == 'raise-timeout':
+            return VR.TIMEOUT, False
+        if ver == 2:
+            return getattr(VR, k), k in ('PASS', 'ALLOW_BYPASS')
+        v = {'True': True, 'False': False, 'None': None}[k]
+        return v, bool(v)
+
+    def validator_for(idx, kind):
+        async def body():
+            v, _ = verdict_of(kind)
+            calls.append((idx, kind, repr(v)))
+            if kind.startswith('slow-'):
+                await asyncio.sleep(JD_SLOW)
+            if kind == 'raise-timeout':
+                raise TimeoutError()
+            return v
+        if ver == 2:
+            async def val(name, sig, context):
+                return await body()
+        else:
+            async def val(name, sig):
+                return await body()
+        return val
+    vk = sp['validator']
+    opposite = {2: {True: 'FAIL', False: 'PASS'}, 1: {True: 'False', False: 'True'}}[ver]
+    entries = []
+
+    def express(kind, nm, vkind, cbp):
+        async def go():
+            val = validator_for(len(entries), vkind)
+            if ver == 2:
+                co = app.express(list(nm), val, lifetime=60000, can_be_prefix=cbp, nonce=len(entries) + 1)
+            else:
+                co = app.express_interest(list(nm), validator=val, lifetime=60000, can_be_prefix=cbp, nonce=len(entries) + 1)
+            return loop.create_task(co)
+        t = loop.run_until_complete(go())
+        loop.settle()
+        entries.append({'kind': kind, 'name': list(nm), 'task': t, 'cbp': cbp, 'validator': vkind})
+
+    def finish():
+        for e in entries:
+            if not e['task'].done():
+                e['task'].cancel()
+        loop.settle()
+        retrieve([e['task'] for e in entries])
+        loop.collect_errors()
+        loop.errors.clear()
+    try:
+        for k in sp['table']:
+            if k == 'W':
+                express(k, nN, vk, False)
+            elif k == 'O':
+                express(k, nN, opposite[verdict_of(vk)[1]], False)
+            elif k == 'U':
+                express(k, nU, vk, False)
+            elif k == 'P' and nP:
+                express(k, nP, vk, True)
+    except Exception as e:   # noqa
+        ctx.violation(site, f'history-raises:{exc_class(e)}', f'expressing the pending Interests raised {e!r}', case)
+        finish()
+        return
+    # whom the packet addresses: the model's classification of the delivered bytes (the implementation's without a model)
+    action = classify_action(M, front, loop, typ, w, 'judged')
+    pkt_name = [bytes(c) for c in action[1]] if action[0] == 4 else None
+    ref = ref_data(bytes(action[2])) if action[0] == 4 else None
+    if action[0] == 4 and ref is None:
+        ctx.disagree(site, 'a packet classified as Data is not one well-framed Data TLV (harness walker)', case, action, None)
+        finish()
+        return
+
+    def outcome(t):
+        if not t.done():
+            return ('pending',)
+        if t.cancelled():
+            return ('CancelledError',)
+        e = t.exception()
+        if e is None:
+            r = t.result()
+            content = r[1] if ver == 2 else r[2]
+            return ('data', [bytes(c) for c in r[0]], None if content is None else bytes(content))
+        if isinstance(e, ValidationFailure):
+            return ('ValidationFailure', [bytes(c) for c in e.name], None if e.content is None else bytes(e.content),
+                    repr(getattr(e, 'result', None)) if ver == 2 else None)
+        return (exc_class(e),)
+
+    def judge(e, name, content, what):
+        """the entry was handed a Data (name, content); its validator gave its verdict: the Interest ends accordingly, at once"""
+        v, passes = verdict_of(e['validator'])
+        want = ('data', name, content) if passes else ('ValidationFailure', name, content, repr(v) if ver == 2 else None)
+        o = outcome(e['task'])
+        if o == want:
+            return
+        if o == ('pending',):
+            cls = 'pending-interest-not-completed'
+        elif o[0] == want[0]:
+            cls = 'pending-interest-wrong-outcome:fields'
+        else:
+            cls = 'pending-interest-wrong-outcome:verdict-' + ('pass' if passes else 'fail')
+        ctx.violation(site, cls, f'entry {e["kind"]} (validator {e["validator"]}, verdict {v!r}) {what} [{label}]: expected '
+                                 f'{want[0]} name={b"".join(want[1]).hex()} content={want[2]!r:.40}, it is {o!r:.120}', case)
+
+    # -- the packet
+    before = [e['task'].done() for e in entries]
+    exc, rx = None, None
+    if sp['mode'] == 'await':
+        async def go_await():
+            try:
+                await app._receive(typ, w)
+                return None
+            except Exception as e:   # noqa
+                return e
+        exc = loop.run_until_complete(go_await())
+    else:
+        async def go_task():
+            return loop.create_task(app._receive(typ, w))
+        rx = loop.run_until_complete(go_task())
+    loop.settle()
+    if rx is not None:
+        if not rx.done():
+            ctx.violation(site, 'reception-does-not-return', 'the reception task is still running at quiescence', case)
+            rx.cancel()
+            loop.settle()
+        elif not rx.cancelled():
+            exc = rx.exception()
+    where = {0: 'decode', 1: 'decode', 2: '_on_nack', 3: '_on_interest', 4: '_on_data'}[action[0]]
+    if exc is not None:
+        ctx.violation(site, f'raises:{exc_class(exc)}:{where}', f'_receive raised {type(exc).__name__} ({str(exc)[:80]}) [{label}]', case)
+    if any(e['validator'].startswith('slow-') for e in entries):
+        loop.advance_to(loop.time() + 2 * JD_SLOW)
+    for e, b4 in zip(entries, before):
+        pn = e['name']
+        addressed = pkt_name is not None and (pn == pkt_name or (e['cbp'] and len(pn) <= len(pkt_name) and pkt_name[:len(pn)] == pn))
+        if addressed:
+            judge(e, pkt_name, ref['content'], 'is addressed by the packet')
+        elif e['task'].done() and not b4:
+            ctx.violation(site, 'pending-interest-disturbed',
+                          f'entry {e["kind"]} ({b"".join(pn).hex()}) is not addressed by the packet [{label}] and ended with {outcome(e["task"])!r:.100}', case)
+    # -- aftermath: whoever is still waiting gets its own (honest) Data and ends as its validator says
+    for e in entries:
+        if e['task'].done():
+            continue
+        d = bytes(make_data(list(e['name']), MetaInfo(), b'after', signer=DigestSha256Signer()))
+        cur['data'] = d
+        try:
+            loop.run_until_complete(app._receive(6, d))
+            loop.settle()
+            if e['validator'].startswith('slow-'):
+                loop.advance_to(loop.time() + 2 * JD_SLOW)
+        except Exception as e2:   # noqa
+            ctx.violation(site, f'aftermath-error:{exc_class(e2)}', f'reception of an honest Data afterwards raised {e2!r}', case)
+        if outcome(e['task']) == ('pending',):
+            ctx.violation(site, 'pending-interest-lost', f'entry {e["kind"]} ({b"".join(e["name"]).hex()}) does not complete with its Data afterwards', case)
+        else:
+            judge(e, e['name'], b'after', 'got its own Data afterwards')
+    errs = loop.collect_errors()
+    loop.errors.clear()
+    if errs:
+        e = errs[0].get('exception')
+        ctx.violation(site, f'loop-error:{exc_class(e) if e is not None else "none"}',
+                      f'a background task ended with an unhandled error [{label}]: {errs[0].get("message")} {e!r}', case)
+    finish()
+    ctx.case(('j', ver, repr(sorted(case['judged'].items()))), True, case if edit[0] in ('none', 'del') else None,
+             f'recv.v{ver}.judged.{edit[0]}.{vk}.{["drop", "raise", "nack", "interest", "data"][action[0]]}')
+
+
+def judged_family(ctx, fronts, loop, M):
+    """every edit x every validator on every base (quick: the bases of JD_QUICK_BASES); name depth, table shape, LpPacket
+    envelope and hand-over rotate (thorough: sampled twice more)"""
+    rng = ctx.rng
+    bases = jd_bases()
+    if not ctx.thorough:
+        bases = [b for b in bases if b[0] in JD_QUICK_BASES]
+    i = 0
+    for f in fronts:
+        for bk, mk_wire in bases:
+            edits = jd_edits(mk_wire([b'\x08\x01x']))
+            for edit in edits:
+                for vk in JD_VALIDATORS[f.ver]:
+                    for rep in range(ctx.n(1, 3)):
+                        i += 1
+                        sp = {'name': JD_NAMES[i % 3] if rep == 0 else rng.choice(JD_NAMES), 'base': bk,
+                              'edit': [edit[0], list(edit[1]), edit[2]], 'validator': vk,
+                              'table': JD_TABLES[(i // 3) % len(JD_TABLES)] if rep == 0 else rng.choice(JD_TABLES),
+                              'lp': (i // 2) % 3 == 0 if rep == 0 else rng.random() < 0.3,
+                              'mode': ('task', 'await')[(i // 5) % 2] if rep == 0 else rng.choice(('task', 'await'))}
+                        judged_scenario(ctx, f, loop, M, sp)
+                        if i % 400 == 1:
+                            gc.collect()
+                            gc.freeze()
+
+
 def retrieve(tasks):
     """the harness is done with these tasks: an outcome nobody looked at (InterestCanceled of an Interest the harness
     itself cancelled ...) must not show up as "Task exception was never retrieved" in a LATER scenario on this loop"""
@@ -1639,6 +2023,11 @@ def part_receive(ctx, only=None):
                     for f in fronts:
                         nack_scenario(ctx, f, loop, w)
                     continue
+                if typ == 'judged':
+                    for f in fronts:
+                        if w['validator'] in JD_VALIDATORS[f.ver]:
+                            judged_scenario(ctx, f, loop, M, w)
+                    continue
                 origin = tbl[2] if len(tbl) > 2 and tbl[2] in BUILT_NACKS else 'replay'
                 if tbl and tbl[0]:
                     # a stored table scenario: the same state word and hand-over mode, both front-ends
@@ -1652,6 +2041,8 @@ def part_receive(ctx, only=None):
             one('corpus', typ, w, True)
         # Nacks (every reason form) against handler tables around the nacked name
         nack_handler_family(ctx, fronts, loop)
+        # awaited Data edited at the TLV level against validators that judge
+        judged_family(ctx, fronts, loop, M)
         # ordinary packets against every small state of the pending-Interest table (and sampled larger ones)
         for wi, word in enumerate(state_words(ctx)):
             pk = table_packets(ctx, wi)
@@ -1722,6 +2113,8 @@ def replay(ctx, data):
         part_udp(ctx, only=[case['datagram']])
     elif 'nackfam' in case:
         part_receive(ctx, only=[('nackfam', case['nackfam'])])
+    elif 'judged' in case:
+        part_receive(ctx, only=[('judged', case['judged'])])
     elif 'wire' in case:
         part_receive(ctx, only=[(case['typ'], case['wire'], case.get('table'), case.get('mode', 'task'), case.get('origin'))])
     else:
